@@ -2,7 +2,9 @@ package props
 
 import (
 	"fmt"
+	"go/types"
 	"regexp"
+	"strconv"
 	"strings"
 
 	"ddcheck/core"
@@ -349,3 +351,105 @@ func unitName(p *core.Program, fn *ssa.Function) string {
 	}
 	return core.ShortKey(fn)
 }
+
+// isSelfCall reports whether call, found in fn (or its inlined clone), re-enters fn: a static
+// call to fn itself or - in a closure - a call of a function value of the closure's own signature
+// (the `var f func(..); f = func(..){ .. f(..) .. }` idiom).
+func isSelfCall(p *core.Program, fn *ssa.Function, call ssa.CallInstruction) bool {
+	orig := p.Original(fn)
+	if callee := call.Common().StaticCallee(); callee != nil {
+		return p.Original(callee) == orig
+	}
+	if call.Common().IsInvoke() || orig.Parent() == nil {
+		return false
+	}
+	sig, ok := call.Common().Value.Type().Underlying().(*types.Signature)
+	return ok && types.Identical(sig, orig.Signature)
+}
+
+// recursiveWorkers lists the self-recursive helpers fn delegates to: closures created in fn and
+// module functions called from fn (after expansion of unexported helpers) that call themselves.
+// Rules about "the recursive collector of X" use this instead of naming a closure, so that turning
+// the closure into a named function (or back) does not move the anchor.
+func recursiveWorkers(p *core.Program, fn *ssa.Function) []*ssa.Function {
+	var cands []*ssa.Function
+	seen := map[*ssa.Function]bool{}
+	add := func(f *ssa.Function) {
+		if f == nil || len(f.Blocks) == 0 {
+			return
+		}
+		f = p.Original(f)
+		if !seen[f] {
+			seen[f] = true
+			cands = append(cands, f)
+		}
+	}
+	inl := p.Inlined(fn)
+	for _, f := range closuresOf(inl) {
+		add(f)
+	}
+	for _, call := range core.Calls(inl, func(ci ssa.CallInstruction) bool { return true }) {
+		if callee := call.Common().StaticCallee(); callee != nil && core.IsModPkg(core.FnPkgPath(callee)) {
+			add(callee)
+		}
+	}
+	var out []*ssa.Function
+	for _, f := range cands {
+		body := p.Inlined(f)
+		rec := false
+		for _, call := range core.Calls(body, func(ci ssa.CallInstruction) bool { return true }) {
+			if isSelfCall(p, f, call) {
+				rec = true
+			}
+		}
+		if rec {
+			out = append(out, f)
+		}
+	}
+	return out
+}
+
+// paramIndexOfType returns the index (in fn.Params) of the first parameter whose type string is ts, or -1.
+func paramIndexOfType(fn *ssa.Function, ts string) int {
+	for i, pa := range fn.Params {
+		if types.TypeString(pa.Type(), func(p *types.Package) string { return p.Name() }) == ts {
+			return i
+		}
+	}
+	return -1
+}
+
+var reQuoted = regexp.MustCompile(`"(?:[^"\\]|\\.)*"`)
+
+// tableKeys returns the string keys/elements of a fixed private table rendered by content
+// (set‹"a","b"›, map‹"a":1›, list‹"a","b"›); map values are dropped.
+func tableKeys(s string) []string {
+	i := strings.Index(s, "‹")
+	if i < 0 || !strings.HasSuffix(s, "›") {
+		return nil
+	}
+	isMap := strings.HasPrefix(s, "map‹")
+	body := s[i+len("‹") : len(s)-len("›")]
+	var out []string
+	for _, m := range reQuoted.FindAllStringIndex(body, -1) {
+		if isMap && (m[1] >= len(body) || body[m[1]] != ':') {
+			continue // a string value, not a key
+		}
+		if k, err := strconv.Unquote(body[m[0]:m[1]]); err == nil {
+			out = append(out, k)
+		}
+	}
+	return out
+}
+
+// reviewed patterns of private package-level regular expressions; canonical forms name such a
+// variable by its pattern (core.RxName), so a rule that mentions one of these also pins its text.
+var (
+	rxDisplay       = core.RxName(`(?i)display:\s*([\w-]+)\s*(?:;|$)`)
+	rxVisibility    = core.RxName(`(?i)visibility:\s*(:?hidden|collapse)`)
+	rxSrcset        = core.RxName(`(?i)(\S+)(\s+[\d.]+[xw])?(\s*(?:,|$))`)
+	rxTitleSep      = core.RxName(`(?i) [\|\-\\/>»] `)
+	rxUnlikely      = core.RxName(`(?i)-ad-|ai2html|banner|breadcrumbs|combx|comment|community|cover-wrap|disqus|extra|footer|gdpr|header|legends|menu|related|remark|replies|rss|shoutbox|sidebar|skyscraper|social|sponsor|supplemental|ad-break|agegate|pagination|pager|popup|yom-remote`)
+	rxOkMaybe       = core.RxName(`(?i)and|article|body|column|content|main|shadow`)
+	unlikelyRoleSet = `set‹"alert","alertdialog","complementary","dialog","menu","menubar","navigation"›`
+)
